@@ -129,9 +129,82 @@ func c13Stream(toks []string) string {
 	return strings.Join(out, " ; ")
 }
 
-var _ = io.EOF
+func c13Buffer(toks []string) string {
+	ops := c13Parse(toks[1:])
+	var b iox.Buffer
+	var out []string
+	for _, op := range ops {
+		op := op
+		ret, ok := c13Try(func() string {
+			switch op.kind {
+			case 'w':
+				n, err := b.Write(op.data)
+				if err != nil {
+					return fmt.Sprintf("W%d!%v", n, err)
+				}
+				return fmt.Sprintf("W%d", n)
+			case 'r':
+				p := make([]byte, op.n)
+				for i := range p {
+					p[i] = 0xEE
+				}
+				n, err := b.Read(p)
+				e := ""
+				if err != nil {
+					if err != io.EOF {
+						return "R!" + err.Error()
+					}
+					e = ":EOF"
+				}
+				return fmt.Sprintf("R%d:%s%s", n, hex.EncodeToString(p[:n]), e)
+			case 'n':
+				return "N" + hex.EncodeToString(b.Next(op.n))
+			case 's':
+				pos, err := b.Seek(op.offset, op.whence)
+				if err != nil {
+					if pos != 0 {
+						return fmt.Sprintf("S!%d,%v", pos, err)
+					}
+					return "SE"
+				}
+				return fmt.Sprintf("S%d", pos)
+			case 't':
+				b.Tidy()
+				return "U"
+			case 'z':
+				b.Reset()
+				return "U"
+			case 'g':
+				b.Grow(op.n)
+				return "U"
+			}
+			panic("unknown op")
+		})
+		if !ok {
+			out = append(out, "PANIC")
+			break
+		}
+		by, bok := c13Try(func() string {
+			x := b.Bytes()
+			if s := b.String(); s != string(x) {
+				return "STRING-DIFFERS-FROM-BYTES"
+			}
+			return hex.EncodeToString(x)
+		})
+		pos := "E"
+		if p, err := b.Seek(0, io.SeekCurrent); err == nil {
+			pos = fmt.Sprint(p)
+		}
+		out = append(out, fmt.Sprintf("%s b=%s l=%d c=%d p=%s", ret, by, b.Len(), b.Cap(), pos))
+		if !bok {
+			break
+		}
+	}
+	return strings.Join(out, " ; ")
+}
 
 func init() {
+	register("c13B", c13Buffer)
 	register("c13S", c13Stream)
 	register("c13So", c13Stream)
 }
